@@ -38,6 +38,8 @@ type simNode struct {
 	wiped int
 	// what the node had acknowledged, across incarnations (C05/C10)
 	maxTermSeen uint64
+	ackedIndex  uint64 // highest log index acknowledged as stored by the incarnation that crashed last
+	ackedTerm   uint64
 }
 
 type nodeInc struct {
@@ -57,6 +59,8 @@ type nodeInc struct {
 	stopping bool // Shutdown requested by the harness
 	tasks    []*taskRec
 	obs      incObs
+	acked, ackedTerm uint64 // highest (index,term) this incarnation acknowledged as stored and still holds
+	pendPrev, pendN  uint64 // append request in progress
 	crashAtIO int // >0: crash when this many more I/O calls were made by this incarnation
 	ioCount   int
 	startedAt int64
@@ -114,6 +118,8 @@ type simRun struct {
 	led ledgers
 	st  runStats
 
+	c06Every int
+	c06Seq   int
 	digests map[uint64]struct{}
 	lastDigest uint64
 	dbgOn bool
@@ -138,9 +144,19 @@ func (run *simRun) violate(prop, oracle, sig, format string, a ...interface{}) {
 	if run.viol != nil {
 		return
 	}
+	run.tape.Frozen++
+	defer func() { run.tape.Frozen-- }()
 	run.viol = &violation{prop, oracle, sig, fmt.Sprintf(format, a...), run.sim.Steps, run.sim.Now}
 	run.stop = true
 }
+
+type dbgLogger struct {
+	run *simRun
+	id  uint64
+}
+
+func (l dbgLogger) Info(v ...interface{}) { l.run.dbg("n%d INFO %v", l.id, v) }
+func (l dbgLogger) Warn(v ...interface{}) { l.run.dbg("n%d WARN %v", l.id, v) }
 
 func (run *simRun) simOptions() Options {
 	c := run.cfg
@@ -150,10 +166,29 @@ func (run *simRun) simOptions() Options {
 		SnapshotInterval:  c.SnapInterval,
 		SnapshotThreshold: c.SnapThresh,
 		ShutdownOnRemove:  true,
-		Bandwidth:         256 * 1024,
+		Bandwidth:         run.bandwidth(),
 		LogSegmentSize:    c.SegSize,
 		SnapshotsRetain:   c.SnapRetain,
 	}
+}
+
+// bandwidth: what the operator may promise the library given the simulated
+// network (window / worst one-way latency, halved for safety). Promising more
+// than the network delivers makes large transfers time out forever, which is a
+// deployment error and not a fault.
+func (run *simRun) bandwidth() int64 {
+	lat := int64(run.cfg.LatBase + run.cfg.LatJitter)
+	if lat < 1000 {
+		lat = 1000
+	}
+	bw := int64(run.cfg.MaxBuf) * int64(time.Second) / lat / 4
+	if bw > 256*1024 {
+		bw = 256 * 1024
+	}
+	if bw < 1024 {
+		bw = 1024
+	}
+	return bw
 }
 
 func nodeAddr(id uint64) string { return fmt.Sprintf("n%d:7000", id) }
@@ -183,6 +218,7 @@ func newSimRun(seed uint64, prof profile, tape *rt.Tape, quiesce func()) *simRun
 	run.st.Faults = map[string]int{}
 	run.st.Reach = map[string]int{}
 	run.cfg = drawConfig(tape, prof)
+	run.c06Every = prof.C06Every
 	run.sim = rt.NewSim(tape, quiesce)
 	run.sim.StepCost = int64(run.cfg.StepCost)
 	run.sim.ContNum, run.sim.ContDen = run.cfg.ContNum, run.cfg.ContNum+1
@@ -372,6 +408,7 @@ func (run *simRun) crash(ni *nodeInc, why string) {
 		return
 	}
 	run.fault("crash:" + why)
+	node.ackedIndex, node.ackedTerm = ni.acked, ni.ackedTerm
 	ni.dead = true
 	ni.nc.Dead = true
 	ni.nc.Stalled = false
